@@ -74,6 +74,7 @@ class SWorld(D.World):
     def __init__(self, seed, rid=""):
         self.sev = []
         self._last_wb = None
+        self._force_wb = False
         self._mute = True
         super().__init__(seed, rid)
         P = self.P
@@ -107,6 +108,7 @@ class SWorld(D.World):
             self.slog(ev)
         elif ev == "conn_res":
             self.slog(ev, out=kw["out"], l=kw["n"])
+        self._force_wb |= ev in ("drop", "disc_res", "conn_res")
 
     def slog(self, ev, **kw):
         if self._mute:
@@ -138,9 +140,10 @@ class SWorld(D.World):
         if WHITE_BOX and all(hasattr(p, a) for a in ("_notifications", "_broadcast_notifications", "_restore_pending", "_shutdown")):
             rec = {"ev": "wb", "ntf": sorted(MID.get(i, 99) for i in p._notifications), "bcn": sorted(MID.get(i, 99) for i in p._broadcast_notifications),
                    "rp": bool(p._restore_pending), "shut": bool(p._shutdown)}
-            if rec != self._last_wb:         # recorded when it changes
+            if rec != self._last_wb or self._force_wb:     # recorded when it changes and after every answer of the link
                 self._last_wb = rec
                 self.sev.append(rec)
+            self._force_wb = False
 
     def _after(self):
         self.settle()
@@ -295,6 +298,7 @@ class SWorld(D.World):
         elif out not in ("ok", "race"):
             out = "ok"
         self.slog("sn_res", l=p.link.n, i=i, out=out)
+        self._force_wb = True
         if out == "err":
             from bleak.exc import BleakError
             p.fut.set_exception(BleakError("harness: characteristic does not support notify or indicate"))
